@@ -18,11 +18,11 @@ import (
 // list itself is reduced with ddmin. Everything runs through the same execute() as normal runs.
 
 type minimiser struct {
-	t       *testing.T
-	execute func(*RunSpec) (*RunReport, *Outcome)
-	sig     string
-	execs   int
-	maxExec int
+	t        *testing.T
+	execute  func(*RunSpec) (*RunReport, *Outcome)
+	sig      string
+	execs    int
+	maxExec  int
 	deadline time.Time
 	research int // schedule seeds tried per candidate
 }
